@@ -267,6 +267,19 @@ example : validateSchema (witnessDefaultCycle false) = .ok [⟨.defaultCycle, [6
     validateSchema (witnessDefaultCycle true) = .ok [] ∧
     Spec.TypeSystemValid (witnessDefaultCycle true) = true := by decide
 
+/-- A gap of the transcribed specification revision, not of the proof: `input A @oneOf { a: A }`
+satisfies every transcribed rule (and `validate_schema` reports nothing), yet `A` has no finite
+value — exactly one field of a OneOf object must be non-null.  `Spec.uninhabited` (newer
+specification text, deliberately not part of `TypeSystemValid`) is the check's oracle for it. -/
+def witnessOneOfCycle : RawSchema :=
+  ⟨some [81], none, none,
+   [⟨[65], .input [⟨[97], .named [65], none, false, false⟩] true⟩,
+    ⟨[81], .object [] [⟨[102], .named [78], [⟨[97], .named [65], none, false, false⟩], false⟩]⟩,
+    ⟨[78], .scalar .int⟩], []⟩
+
+example : validateSchema witnessOneOfCycle = .ok [] ∧ Spec.TypeSystemValid witnessOneOfCycle = true ∧
+    Spec.uninhabited witnessOneOfCycle = [[65]] ∧ Spec.uninhabited (witnessCycle true) = [] := by decide
+
 /-! ## termination of the circular-reference validators -/
 
 /-- C20-3 (full). Neither circular-reference validator ever exhausts its recursion budget, on
